@@ -195,8 +195,30 @@ static void grid(void)
             ZSTD_DCtx_setMaxWindowSize(d, (size_t)1 << 20); { int v = 0; ZSTD_DCtx_getParameter(d, ZSTD_d_windowLogMax, &v); (void)v; }
             ZSTD_DCtx_setFormat(d, ZSTD_f_zstd1_magicless); { int v = 0; ZSTD_DCtx_getParameter(d, ZSTD_d_format, &v); if (v != ZSTD_f_zstd1_magicless) v_viol("dctx:setFormat-not-reflected", "%d", v); }
             ZSTD_freeDCtx(d); }
+        /* session-level entry points keep the parameters (zstd.h documents each of them as "reset session [+ reference / load a dictionary]"): every decompression parameter at a
+         * non-default value, then each way of starting the next frame, then the whole get-vector again */
+        {   static const char* const opn[] = { "ZSTD_decompressDCtx", "ZSTD_decompressStream(whole frame)", "ZSTD_initDStream", "ZSTD_resetDStream", "ZSTD_DCtx_reset(session_only)", "ZSTD_DCtx_refDDict(NULL)", "ZSTD_DCtx_loadDictionary(NULL,0)", "ZSTD_decompressBegin" };
+            for (int op = 0; op < 8; op++) { ZSTD_DCtx* d = ZSTD_createDCtx(); int before[NDP], after[NDP];
+                for (int i = 0; i < NDP; i++) { ZSTD_bounds const b = ZSTD_dParam_getBounds(DPARAMS[i].p); if (ZSTD_isError(b.error)) continue; int v = (b.upperBound == dfl[i]) ? b.lowerBound : b.upperBound; if (DPARAMS[i].p == ZSTD_d_windowLogMax) v = 23; if (DPARAMS[i].p == ZSTD_d_maxBlockSize) v = 4096; ZSTD_DCtx_setParameter(d, DPARAMS[i].p, v); }
+                for (int i = 0; i < NDP; i++) { before[i] = 0; ZSTD_DCtx_getParameter(d, DPARAMS[i].p, &before[i]); }
+                switch (op) { case 0: (void)ZSTD_decompressDCtx(d, g_out, sizeof g_out, g_dst, fsz); break;
+                    case 1: { ZSTD_inBuffer in = { g_dst, fsz, 0 }; ZSTD_outBuffer out = { g_out, sizeof g_out, 0 }; (void)ZSTD_decompressStream(d, &out, &in); break; }
+                    case 2: (void)ZSTD_initDStream(d); break; case 3: (void)ZSTD_resetDStream(d); break; case 4: (void)ZSTD_DCtx_reset(d, ZSTD_reset_session_only); break;
+                    case 5: (void)ZSTD_DCtx_refDDict(d, NULL); break; case 6: (void)ZSTD_DCtx_loadDictionary(d, NULL, 0); break; default: (void)ZSTD_decompressBegin(d); break; }
+                for (int i = 0; i < NDP; i++) { after[i] = 0; ZSTD_DCtx_getParameter(d, DPARAMS[i].p, &after[i]); if (after[i] != before[i]) v_viol("dctx:session-level-call-changed-a-parameter", "%s changed %s from %d to %d", opn[op], DPARAMS[i].name, before[i], after[i]); v_stat("grid_cells", 1); }
+                ZSTD_freeDCtx(d); } }
         ZSTD_freeDCtx(f);
     }
+    /* the same for the compression side: ZSTD_initCStream(level) = reset session + drop the dictionary + set the level; ZSTD_resetCStream / initCStream_srcSize likewise + pledged size */
+    {   static const char* const opn[] = { "ZSTD_initCStream", "ZSTD_resetCStream", "ZSTD_initCStream_srcSize", "ZSTD_CCtx_reset(session_only)", "ZSTD_CCtx_refCDict(NULL)", "ZSTD_CCtx_refPrefix(NULL,0)", "ZSTD_CCtx_setPledgedSrcSize" };
+        for (int op = 0; op < 7; op++) { ZSTD_CCtx* c = ZSTD_createCCtx(); cvec before, after;
+            ZSTD_CCtx_setParameter(c, ZSTD_c_compressionLevel, 7); ZSTD_CCtx_setParameter(c, ZSTD_c_windowLog, 20); ZSTD_CCtx_setParameter(c, ZSTD_c_checksumFlag, 1); ZSTD_CCtx_setParameter(c, ZSTD_c_contentSizeFlag, 0); ZSTD_CCtx_setParameter(c, ZSTD_c_dictIDFlag, 0);
+            ZSTD_CCtx_setParameter(c, ZSTD_c_enableLongDistanceMatching, 1); ZSTD_CCtx_setParameter(c, ZSTD_c_minMatch, 5); ZSTD_CCtx_setParameter(c, ZSTD_c_targetCBlockSize, 2000); ZSTD_CCtx_setParameter(c, ZSTD_c_maxBlockSize, 4096); ZSTD_CCtx_setParameter(c, ZSTD_c_literalCompressionMode, 2); ZSTD_CCtx_setParameter(c, ZSTD_c_useRowMatchFinder, 2);
+            getvec(c, &before);
+            switch (op) { case 0: (void)ZSTD_initCStream(c, 7); break; case 1: (void)ZSTD_resetCStream(c, 1000); break; case 2: (void)ZSTD_initCStream_srcSize(c, 7, 1000); break; case 3: (void)ZSTD_CCtx_reset(c, ZSTD_reset_session_only); break;
+                case 4: (void)ZSTD_CCtx_refCDict(c, NULL); break; case 5: (void)ZSTD_CCtx_refPrefix(c, NULL, 0); break; default: (void)ZSTD_CCtx_setPledgedSrcSize(c, 1000); break; }
+            getvec(c, &after); { int const dd = vec_diff(&before, &after); if (dd >= 0) v_viol("cctx:session-level-call-changed-a-parameter", "%s changed %s from %d to %d", opn[op], CPARAMS[dd].name, before.v[dd], after.v[dd]); } v_stat("grid_cells", NCP);
+            ZSTD_freeCCtx(c); } }
     v_sample("grid: %d cParameters x <=10 values x 7 stages + mid-frame ST/MT + CCtxParams + %d dParameters x 4 stages", NCP, NDP);
 }
 
